@@ -302,7 +302,7 @@ def run(ctx):
                 root = build_small(t, id_mode, wd)
                 n_exh += 1
                 if not compare(ctx, root, f'exh{n}', sample=None if n_exh % 500 else dict(table=raw_table(root), impl=impl_verdict(root))):
-                    if len(ctx.violations) >= 3:
+                    if ctx.n_new() >= 3:
                         return
     ctx.extra['exhaustive_small_nets'] = n_exh
     ctx.extra['exhaustive'] = False
@@ -322,7 +322,7 @@ def run(ctx):
             ok = compare(ctx, bad, 'corrupt:' + name)
             if spec_verdict(bad) != 'accept' and ok and (k % 3 == 0 or not quick):
                 check_gates(ctx, bad, name, nv + 8)
-            if len(ctx.violations) >= 3:
+            if ctx.n_new() >= 3:
                 return
 
 
